@@ -1,5 +1,5 @@
 #!/usr/bin/env python3
-"""usage: tools/seedstore.py <worktree> <dir-name> "<demo go test args>" "<caught_by>" <missed:0|1>
+"""usage: tools/seedstore.py <worktree> <dir-name> "<demo go test args>" "<caught_by>" <missed:0|1|2 (2 = not reported by any check)>
 Copies patch.diff, the demonstration files (untracked files of the worktree) and meta.json into /verif/seeded/<dir-name>/."""
 import json, os, shutil, subprocess, sys
 src, name, demo, caught, missed = sys.argv[1:6]
@@ -19,5 +19,7 @@ meta["demo_command"] = f"copy demo/* into a worktree of /repo with patch.diff ap
 meta["verified_by_me"] = "tools/seedverify.sh in a fresh scratch worktree of /repo HEAD: patch applies, go build ./... ok, go test -vet=off -count=1 ./... all ok with the change, demonstration FAILS with the change and PASSES without it"
 meta["caught_by"] = caught
 meta["missed_by_first_version_of_the_checks"] = missed == "1"
+if missed == "2":
+    meta["not_reported"] = True
 json.dump(meta, open(dst + "/meta.json", "w"), indent=1)
 print(name, files)
